@@ -12,7 +12,7 @@ using vt::Ev;
 static const int NS = 10, NB = 4;
 static void do_deser(vt::Rng& g, int b, int want_dst = -1, int want_stream = -1);
 struct Group { std::vector<Item> items; long version = 0; bool crafted = false; };   // crafted: holds coupons no item can reproduce
-struct Obj { std::unique_ptr<hll_sketch> s; int grp = -1; bool restored = false; };
+struct Obj { std::unique_ptr<hll_sketch> s; int grp = -1; bool restored = false; Item last; bool has_last = false; };   // last: the item of the most recent update call on this VARIABLE
 struct Blob { bool crafted = false; bool live = false; std::vector<uint8_t> bytes; bool compact = false; int grp = -1; long version = 0; std::vector<Item> items; };
 
 static Obj obj[NS];
@@ -34,7 +34,7 @@ static void emit_new(int id) {
 // rejection on an object restored from an image is attributed to C09
 static void emit_update(const std::vector<int>& ids, const Item& it) {
   Coupon c{0, 0}; bool counted = ref_coupon(it, c);
-  for (int id : ids) do_update(*obj[id].s, it);
+  for (int id : ids) { do_update(*obj[id].s, it); obj[id].last = it; obj[id].has_last = true; }
   for (int pass = 0; pass < 2; pass++) {
     std::vector<int> sel, m, sv; std::vector<bool> em; std::string ph = "[";
     for (int id : ids) if ((int)obj[id].restored == pass) {
@@ -74,6 +74,14 @@ static void emit_obs(const std::vector<int>& ids) {
 static int pick_live(vt::Rng& g) { for (;;) { int i = (int)g.below(NS); if (obj[i].s) return i; } }
 static int pick_dst(vt::Rng& g, int avoid) { for (;;) { int i = 4 + (int)g.below(NS - 4); if (i != avoid) return i; } }
 
+// After a state-replacing operation on a variable (reset, copy / move assignment, deserialize into it) the very next update may be
+// ANY item - in particular the item that variable saw last before the operation: offer exactly that one to its whole group.
+static void replay_last(int id, const Item& it) {
+  int gr = obj[id].grp;
+  groups[gr].items.push_back(it); groups[gr].version++;
+  emit_update(members(gr), it);
+}
+
 // deserialize blob b (or a random live one) into a free slot, bytes or stream path (16 sentinel bytes appended)
 static void do_deser(vt::Rng& g, int b, int want_dst, int want_stream) {
   if (b < 0) b = (int)g.below(NB);
@@ -95,7 +103,11 @@ static void do_deser(vt::Rng& g, int b, int want_dst, int want_stream) {
   auto re = bl.compact ? n->serialize_compact() : n->serialize_updatable();
   std::vector<uint8_t> rev(re.begin(), re.end());
   auto cn = canon(rev);
-  obj[dst].s = std::move(n); obj[dst].restored = true;
+  bool into_existing = obj[dst].s && obj[dst].has_last && g.chance(50);
+  Item prev = obj[dst].last;
+  if (into_existing) *obj[dst].s = std::move(*n);      // move-assignment into a live variable
+  else { obj[dst].s = std::move(n); obj[dst].has_last = false; }
+  obj[dst].restored = true;
   // the restored object continues in lock-step with its source if the source has not moved on since
   if (groups[bl.grp].version == bl.version && !members(bl.grp).empty()) obj[dst].grp = bl.grp;
   else { obj[dst].grp = new_group(bl.items); groups[obj[dst].grp].crafted = bl.crafted; }
@@ -105,6 +117,7 @@ static void do_deser(vt::Rng& g, int b, int want_dst, int want_stream) {
     .bytes("reimg", rev.data(), rev.size()).bytes("recanon", cn.data(), cn.size())
     .raw("r", proj(dst, *obj[dst].s)).b("restored", true).emit();
   g_budget--;
+  if (into_existing) replay_last(dst, prev);
 }
 
 // serialize sketch src into a blob: compact (with header sizes) or updatable, bytes and stream
@@ -171,7 +184,9 @@ static void restore_rounds(vt::Rng& g, int g0, int lgk, long wide) {
   long k = 1L << lgk;
   long promo = lgk < 8 ? 8 : 3 * k / 32 + 1;
   auto feed1 = [&](const Item& it) { groups[g0].items.push_back(it); groups[g0].version++; emit_update(members(g0), it); };
+  Item before_reset; bool have_before = false;
   for (int round = 0; round < 3; round++) {
+    if (round > 0 && !members(g0).empty()) { int f = members(g0)[0]; have_before = obj[f].has_last; before_reset = obj[f].last; }
     if (round > 0) {                                   // round 1: the state right after reset(); round 2: reset, then one item
       auto ids = members(g0);
       groups[g0].items.clear(); groups[g0].version++; groups[g0].crafted = false;
@@ -183,7 +198,7 @@ static void restore_rounds(vt::Rng& g, int g0, int lgk, long wide) {
         e.emit(); g_budget--;
       }
     }
-    if (round == 2) { Item it; do it = draw(g, wide); while ((it.type == 10 && it.sv.empty())); feed1(it); }
+    if (round == 2) { Item it; do it = draw(g, wide); while ((it.type == 10 && it.sv.empty())); if (have_before && g.chance(50)) it = before_reset; feed1(it); }
     // four restores per round: sources rotate over the six originals, (form, path) over the four combinations
     for (int slot = 0; slot < 4; slot++) {
       int src = (round * 2 + slot + (int)g.below(2) * 3) % 6;
@@ -198,6 +213,7 @@ static void restore_rounds(vt::Rng& g, int g0, int lgk, long wide) {
     for (long j = 0; j < n; j++) {
       Item it = draw(g, wide);
       if (g.chance(8) && !groups[g0].items.empty()) it = groups[g0].items[g.below(groups[g0].items.size())];
+      if (j == 0 && round == 1 && have_before) it = before_reset;       // the very next update after reset(): the last item before it
       feed1(it);
       if (j == 0 || j == 7 || j == promo - 1 || j == promo || j % 50 == 49) emit_obs(members(g0));
     }
@@ -384,12 +400,15 @@ int main(int argc, char** argv) {
         e.emit(); g_budget--;
       } else if (op < 100 - 5 - serde2) {
         int src = pick_live(g), dst = pick_dst(g, src);
-        bool assign = obj[dst].s && g.chance(50);
-        if (assign) *obj[dst].s = *obj[src].s; else obj[dst].s.reset(new hll_sketch(*obj[src].s));
+        bool assign = obj[dst].s && g.chance(60);
+        bool had = assign && obj[dst].has_last; Item prev = obj[dst].last;
+        if (assign) { if (g.chance(50)) *obj[dst].s = *obj[src].s; else *obj[dst].s = hll_sketch(*obj[src].s); }     // copy- or move-assignment
+        else { obj[dst].s.reset(new hll_sketch(*obj[src].s)); obj[dst].has_last = false; }
         obj[dst].grp = obj[src].grp; obj[dst].restored = obj[src].restored;
         Ev e("Copy"); e.i("src", src).i("dst", dst).b("assign", assign).raw("r", proj(dst, *obj[dst].s)).raw("ref", light(src, *obj[src].s));
         if (obj[dst].restored) e.b("restored", true);
         e.emit(); g_budget--;
+        if (had) replay_last(dst, prev);
       } else if (op < 100 - 4 - serde2) {
         if (!g.chance(25)) continue;
         // reset: a whole group (stays in lock-step) or one object
@@ -398,6 +417,7 @@ int main(int argc, char** argv) {
         if (i < 4 || g.chance(60)) ids = members(obj[i].grp); else { ids = {i}; if (members(obj[i].grp).size() > 1) obj[i].grp = new_group({}); }
         groups[obj[i].grp].items.clear(); groups[obj[i].grp].version++; groups[obj[i].grp].crafted = false;
         if (obj[i].grp == g0) planted = 0;     // the base group starts over: plant again in every phase
+        bool had = obj[i].has_last; Item prev = obj[i].last;
         for (int id : ids) {
           obj[id].s->reset();
           View v = view(*obj[id].s, false);
@@ -405,6 +425,7 @@ int main(int argc, char** argv) {
           if (obj[id].restored) e.b("restored", true);
           e.emit(); g_budget--;
         }
+        if (had) replay_last(i, prev);
       } else if (op < 100 - serde2) {
         // permuted re-feed of everything a group has seen into a fresh sketch of another type
         if (!g.chance(40)) continue;
